@@ -57,8 +57,10 @@ GStep ==
      \/ st' = SetStart(st, -1) /\ hist' = Append(hist, [op |-> "clear_start"])
 
 RF == {Inits[k].rf[q] : q \in DOMAIN Inits[k].rf}
-\* only well-formed edits are generated: no step removes the last declaration of a function a body names by ref.func
-GStepWF == GStep /\ RefFuncOK(st', RF)
+\* only well-formed edits are generated: no step of the *user's* removes the last declaration of a function a body names
+\* by ref.func.  replace_exported_func is walrus's own edit: when it takes away the only declaration (the export) of such a
+\* function the output no longer validates -- that is a finding about walrus (known_findings.json), not an ill-formed script
+GStepWF == GStep /\ (RefFuncOK(st', RF) \/ ~RefFuncOK(st, RF) \/ hist'[Len(hist')].op = "replace_exported")
 
 GInit == k \in 1..Len(Inits) /\ st = Inits[k].state /\ nedits = 0 /\ hist = <<>>
 GSpec == GInit /\ [][GStepWF]_gvars
